@@ -444,7 +444,13 @@ static uint8_t* tls_addr(size_t off) {
     /* x86-64 variant II static TLS: the executable's block ends at the thread pointer */
     if (!have_tls) return NULL;
     size_t a = tls_align ? tls_align : 1; size_t blk = (tls_memsz + a - 1) / a * a;
-    return (uint8_t*)__builtin_thread_pointer() - blk + off;
+    uint8_t* tp;
+#if defined(__x86_64__)
+    __asm__("mov %%fs:0, %0" : "=r"(tp));
+#else
+    tp = (uint8_t*)__builtin_thread_pointer();
+#endif
+    return tp - blk + off;
 }
 int pv_static_init(void) {
     const char* path = getenv("PV_LINKMAP");
